@@ -33,6 +33,9 @@ def one(ctx, n, edges, labels, k, allow_empty, roots, prim, form, be, grid=None)
     desc = {"n": n, "edges": [list(e) for e in edges], "grid": grid, "labels": list(labels), "k": k, "allow_empty": allow_empty,
             "roots": roots, "primitive": prim, "form": form}
     ctx.current_case = {"tag": "div", "desc": desc}
+    if grid is None:
+        edges = D.scramble(ctx.rng, edges)
+        desc["edges"] = [list(e) for e in edges]
     vs = [s.int_var(0, k - 1) for _ in range(n)]
     pins = [v == lab for v, lab in zip(vs, labels)]
     if form == "const":
